@@ -3,6 +3,8 @@
    Case layout (ints are wire ints, strings are byte strings):
      tag(1)
      configured-base:string  limiter(0 none | 1 ok | 2 fails)
+     context(0 live | 1 cancelled before the call | 2 cancelled while the request is in flight)
+     follow-redirects:bool  hops: list of absolute Location strings  hop-status
      endpoint: code then arguments
         0 Get e id fopts | 1 Multi e ids fopts | 2 Version e id v | 3 History e id
         4 NodeWays id fopts | 5 RelationsOf e id fopts | 6 Full fe id fopts | 7 Map bounds fopts
@@ -16,9 +18,7 @@
                error class (0 none 1 notfound 2 forbidden 3 gone 4 uritoolong 5 unexpected 6 other)
                NotFound(err):bool  has_data:bool  data: list (kind id)  panicked:bool
    codes: 1 = model <> implementation, 2 = the property oracle (SpecApi) fails on the
-          observation, 3 = the oracle fails even with bbox coordinates compared at six decimals
-          (so a case of the known bbox-precision class is still judged on everything else),
-          0 = case does not parse. *)
+          observation, 0 = case does not parse. *)
 From Coq Require Import ZArith List String Ascii Bool.
 From Verif Require Import Base.Wire C20.Syntax C20.Text C20.Types C20.Model C20.SpecApi.
 Import ListNotations.
@@ -111,9 +111,8 @@ Definition requests_of (t : list event) : list (str * str) :=
   flat_map (fun e => match e with EvRequest m u => [(lit m, u)] | EvWait => [] end) t.
 
 (* judgement 1: the model's outcome equals the observation *)
-Definition model_agrees (cfg : str) (lim : limiter) (ep : endpoint) (resp : response)
-  (ob : observed) : bool :=
-  let o := call cfg lim ep resp in
+Definition model_agrees (cfg : str) (w : world) (ep : endpoint) (ob : observed) : bool :=
+  let o := call_w cfg w ep in
   negb (o_bad o) &&
   list_eqb Z.eqb (map event_code (o_trace o)) (ob_events ob) &&
   list_eqb (fun a b => str_eqb (fst a) (fst b) && url_eqb (snd a) (snd b))
@@ -126,25 +125,27 @@ Definition model_agrees (cfg : str) (lim : limiter) (ep : endpoint) (resp : resp
   | None => negb (ob_has_data ob)
   end.
 
-Definition xevent_code (e : xevent) : Z := match e with XWait => 1 | XGet => 2 end.
-
 (* judgement 2: the property, evaluated on what the implementation did *)
-Definition spec_agrees (strict : bool) (cfg : str) (lim : limiter) (ep : endpoint) (resp : response)
-  (ob : observed) : bool :=
-  let evs := spec_events lim ep in
+Definition spec_agrees (cfg : str) (w : world) (ep : endpoint) (ob : observed) : bool :=
+  let hops := spec_followed w in
+  let want_events :=
+    (if waits w ep then [1] else []) ++
+    (if permitted w ep then repeat 2 (S (List.length hops)) else []) in
   negb (ob_panic ob) &&
-  list_eqb Z.eqb (map xevent_code evs) (ob_events ob) &&
-  if existsb (fun e => match e with XGet => true | XWait => false end) evs then
-    (* exactly one GET of the documented URL, then the documented result for the response *)
+  list_eqb Z.eqb want_events (ob_events ob) &&
+  if permitted w ep then
+    (* one GET of the documented URL, then exactly the hops the server named; then the
+       documented result for the answer *)
     match ob_requests ob with
-    | [(m, u)] =>
-        str_eqb m (lit "GET") && request_ok_at strict cfg ep u &&
-        Bool.eqb (ob_notfound ob) (r_status resp =? 404) &&
-        match spec_result ep resp with
-        | XData l => (ob_class ob =? 0) && ob_has_data ob && els_eqb l (ob_data ob)
-        | XErr c => (ob_class ob =? class_code c) && negb (ob_has_data ob)
+    | (m, u) :: rest =>
+        str_eqb m (lit "GET") && request_ok cfg ep u &&
+        forallb (fun a => str_eqb (fst a) (lit "GET")) rest && list_eqb str_eqb (map snd rest) hops &&
+        match spec_result_w w ep with
+        | XData l => (ob_class ob =? 0) && negb (ob_notfound ob) && ob_has_data ob && els_eqb l (ob_data ob)
+        | XErr c => (ob_class ob =? class_code c) && negb (ob_has_data ob) &&
+                    Bool.eqb (ob_notfound ob) (class_code c =? 1)
         end
-    | _ => false
+    | [] => false
     end
   else
     (* nothing may reach the server; the call fails with an ordinary error and no data *)
@@ -153,12 +154,18 @@ Definition spec_agrees (strict : bool) (cfg : str) (lim : limiter) (ep : endpoin
     | _ => false
     end.
 
+Definition pctx : P ctx_state :=
+  c <- pint ;;
+  if c =? 0 then ret CtxLive else if c =? 1 then ret CtxCancelledBefore
+  else if c =? 2 then ret CtxCancelledDuring else pfail.
+
 Definition check_call : P (list Z) :=
-  cfg <- pstr ;; lim <- plimiter ;; ep <- pendpoint ;;
+  cfg <- pstr ;; lim <- plimiter ;; cx <- pctx ;; fol <- pbool ;; hops <- plist pstr ;; hs <- pint ;;
+  ep <- pendpoint ;;
   st <- pint ;; b <- pbody ;; ob <- pobserved ;;
-  let resp := {| r_status := st; r_body := b |} in
-  ret (code_if (model_agrees cfg lim ep resp ob) 1 ++ code_if (spec_agrees true cfg lim ep resp ob) 2
-       ++ code_if (spec_agrees false cfg lim ep resp ob) 3).
+  let w := {| w_lim := lim; w_ctx := cx; w_follow := fol; w_hops := hops; w_hop_status := hs;
+              w_resp := {| r_status := st; r_body := b |} |} in
+  ret (code_if (model_agrees cfg w ep ob) 1 ++ code_if (spec_agrees cfg w ep ob) 2).
 
 Definition check_case (t : toks) : list Z :=
   match parse_all (tag <- pint ;; if tag =? 1 then check_call else pfail) t with
